@@ -94,12 +94,20 @@ func runLenBounds(c LBCase) error {
 			}
 		}(p)
 	}
+	// every pushed element comes out exactly once, and what one consumer gets from one producer is in
+	// that producer's push order
+	seenMu := make([]sync.Mutex, c.Producers)
+	seen := make([][]uint8, c.Producers)
+	for p := range seen {
+		seen[p] = make([]uint8, c.PerProd)
+	}
 	var got atomic.Int64
 	for k := 0; k < c.Consumers; k++ {
 		wg.Add(1)
 		go func(k int) {
 			defer wg.Done()
 			i := k
+			lastOf := map[int]int{}
 			for got.Load() < total {
 				n := c.PopNs[i%len(c.PopNs)]
 				i++
@@ -108,6 +116,26 @@ func runLenBounds(c LBCase) error {
 				popStartedMax.Add(int64(len(items)) - n)
 				popDone.Add(int64(len(items)))
 				got.Add(int64(len(items)))
+				for _, it := range items {
+					p, idx := it/1000000, it%1000000
+					if it < 0 || p >= c.Producers || idx >= c.PerProd {
+						bad.CompareAndSwap(nil, fmt.Sprintf("PopN returned %d, which nobody pushed", it))
+						return
+					}
+					if last, ok := lastOf[p]; ok && idx <= last {
+						bad.CompareAndSwap(nil, fmt.Sprintf("a consumer got element %d of producer %d after element %d of the same producer", idx, p, last))
+						return
+					}
+					lastOf[p] = idx
+					seenMu[p].Lock()
+					seen[p][idx]++
+					dup := seen[p][idx] > 1
+					seenMu[p].Unlock()
+					if dup {
+						bad.CompareAndSwap(nil, fmt.Sprintf("element %d of producer %d came out twice", idx, p))
+						return
+					}
+				}
 				if ok != (len(items) > 0) && n > 0 {
 					bad.CompareAndSwap(nil, fmt.Sprintf("PopN(%d) returned %d items with ok=%v", n, len(items), ok))
 					return
@@ -123,6 +151,13 @@ func runLenBounds(c LBCase) error {
 	owg.Wait()
 	if b, _ := bad.Load().(string); b != "" {
 		return fmt.Errorf("%s (capacity %d, %d producers x %d, PopN sizes %v)", b, c.Cap, c.Producers, c.PerProd, c.PopNs)
+	}
+	for p := range seen {
+		for idx, n := range seen[p] {
+			if n != 1 {
+				return fmt.Errorf("element %d of producer %d came out %d times, want once (capacity %d, %d producers x %d, PopN sizes %v)", idx, p, n, c.Cap, c.Producers, c.PerProd, c.PopNs)
+			}
+		}
 	}
 	if l := rb.Len(); l != 0 {
 		return fmt.Errorf("after everything pushed was popped Len() = %d, want 0", l)
